@@ -1,9 +1,9 @@
 (* Extraction of the C09 model.  Directives used: exactly those of ExtrOcamlBasic. *)
 Require Extraction.
 Require Import ExtrOcamlBasic.
-From OFGA Require Import Cache.CachedIter Cache.CachedIterAdmit.
+From OFGA Require Import Cache.CachedIter Cache.CachedIterAdmit Cache.CachedIterShared.
 Extraction Language OCaml.
 Extraction "c09_model.ml"
   init_state step run kf_of bypass elide reconstruct minimal reconstruct2 strip_ts consistent consistent2
   decode alist_get it_key it_out it_live st_clock st_cache st_iters st_writes st_sf st_srv st_inval
-  mi_phase mi_buf hi_items ainit astep arun aout_ok aout_leak.
+  mi_phase mi_buf hi_items ainit astep arun aout_ok aout_leak sh_init sh_step sh_inner_stopped.
